@@ -4,7 +4,7 @@ import ast
 from .. import cfg as cfgmod
 from ..report import AnalysisError
 from ..srcmodel import unparse, norm, walk_no_nested, calls_in
-from .common import cfg_of, facts_at, find_stmt_node, is_method_call, get_kw, recv_of, name_defs
+from .common import cfg_of, facts_at, find_stmt_node, is_method_call, get_kw, recv_of, name_defs, only_reached_from
 
 
 MNI = {'on_evaluate', 'get_or_set', 'persistent_id', 'get_list_path'}
@@ -80,7 +80,13 @@ def who_may_evaluate(repo, run, rule):
                 inside_impl = fi.name == 'on_evaluate_impl' or (fi.cls is not None and fi.name in ('on_evaluate',))
                 deleg = r in ('super().ayns', 'self.ayns') or (r.endswith('.ayns') and r[:-5] in repo.classes and c.args and norm(c.args[0]) == 'self')
                 helper = fi.cls is not None and repo.is_subclass(fi.cls.name, 'ConfigNode') and deleg and r != 'self.ayns'
-                if (fi.qualname == 'ConfigNode.ayns.on_evaluate' and r == 'self.ayns') or (inside_impl and deleg and r != 'self.ayns') or helper:
+                moved = False
+                if not (inside_impl or helper) and r.endswith('.ayns') and r[:-5] in repo.classes and c.args and isinstance(c.args[0], ast.Name) and c.args[0].id in fi.params():
+                    # the delegation was moved into a private helper that receives the node: still the node's own evaluation
+                    # when the helper is reachable only from on_evaluate_impl implementations
+                    impls = {f.qualname for f in repo.cha('on_evaluate_impl', ayns=True)}
+                    moved = only_reached_from(repo, fi.qualname, impls)
+                if (fi.qualname == 'ConfigNode.ayns.on_evaluate' and r == 'self.ayns') or (inside_impl and deleg and r != 'self.ayns') or helper or moved:
                     run.ok(rule, (fi.file, c.lineno, fi.qualname), unparse(c)[:90], 'self-delegation inside the node\'s own evaluation')
                 else:
                     run.violation(rule, fi, unparse(c), 'on_evaluate_impl is called from outside on_evaluate / another on_evaluate_impl of the same node', node=c)
